@@ -322,6 +322,17 @@ func TestC13_Migrate(t *testing.T) {
 				if isTerminal(want.Status) && got.Status != want.Status {
 					mfail(t, log, "C02/terminal-changed-by-upgrade", "record %d was %s before the store upgrade and is %s after it", i, datatransfer.Statuses[want.Status], datatransfer.Statuses[got.Status])
 				}
+			case "C19":
+				// the views of a channel read from an upgraded store agree with how it was created
+				if got.IsPull != (got.ChannelID.Initiator == got.Recipient) || got.IsPull != want.IsPull || got.Sender != want.Sender ||
+					got.Recipient != want.Recipient || got.Other == got.Self || got.Self != want.Self || got.Other != want.Other || got.ChannelID != want.ChannelID {
+					mfail(t, log, "C19/identity-views-after-upgrade", "record %d: pull=%v chid=%s self=%s other=%s snd=%s rcv=%s, created as pull=%v chid=%s self=%s other=%s snd=%s rcv=%s",
+						i, got.IsPull, chidStr(got.ChannelID), got.Self, got.Other, got.Sender, got.Recipient, want.IsPull, chidStr(want.ChannelID), want.Self, want.Other, want.Sender, want.Recipient)
+				}
+				if len(got.Vouchers) == 0 || got.Voucher != got.Vouchers[0] || got.LastVoucher != got.Vouchers[len(got.Vouchers)-1] ||
+					(len(got.Results) == 0 && got.LastResult != emptyVoucherStr) || (len(got.Results) > 0 && got.LastResult != got.Results[len(got.Results)-1]) {
+					mfail(t, log, "C19/voucher-views-after-upgrade", "record %d: first %s last %s lastResult %s, logs %v / %v", i, got.Voucher, got.LastVoucher, got.LastResult, got.Vouchers, got.Results)
+				}
 			case "C03":
 				if want.ReqFinal && !got.ReqFinal {
 					mfail(t, log, "C03/finalization-requirement-lost-by-upgrade", "record %d required finalization before the store upgrade and does not after it", i)
@@ -421,6 +432,12 @@ func TestC13_Migrate(t *testing.T) {
 			stats.For("C02").Eval()
 			if nTerminal > 0 {
 				stats.For("C02").Nontrivial(stats.FP("upgrade", fmt.Sprint(statuses)))
+			}
+		case p == "C19":
+			stats.For("C19").Eval()
+			stats.For("C19").Class("views_after_store_upgrade")
+			if n > 0 {
+				stats.For("C19").Nontrivial(stats.FP("upgrade", fmt.Sprint(statuses), n))
 			}
 		case p == "C03":
 			stats.For("C03").Eval()
